@@ -53,6 +53,19 @@ class Report:
     def assume(self, text):
         if text not in self.assumptions: self.assumptions.append(text)
 
+    def normalise_keys(self, known_keys=None):
+        """a key segment may list alternatives ('~'): the violation is a listed finding if one of the concrete keys is listed; otherwise
+        it goes by the first alternative"""
+        if known_keys is None:
+            kf_path = os.path.join(VERIF, 'known_findings.json')
+            known_keys = {k['key'] for k in json.load(open(kf_path)).get('known', []) if k.get('property') == self.prop} if os.path.exists(kf_path) else set()
+        import itertools as _it
+        for o in self.obligations:
+            if o['status'] == 'violation' and '~' in o['key']:
+                segs = [sg.split('~') for sg in o['key'].split('|')]
+                cands = ['|'.join(c) for c in _it.islice(_it.product(*segs), 64)]
+                o['key'] = next((c for c in cands if c in known_keys), cands[0])
+
     # ---- finishing --------------------------------------------------------------------
     def finish(self, extraction_info, seed=0):
         kf_path = os.path.join(VERIF, 'known_findings.json')
@@ -60,6 +73,7 @@ class Report:
         if os.path.exists(kf_path):
             known = [k for k in json.load(open(kf_path)).get('known', []) if k.get('property') == self.prop]
         known_keys = {k['key']: k for k in known}
+        self.normalise_keys(known_keys)
         viols = [o for o in self.obligations if o['status'] == 'violation']
         incs = [o for o in self.obligations if o['status'] == 'inconclusive']
         new_viols = [o for o in viols if o['key'] not in known_keys]
